@@ -161,7 +161,7 @@ def finish_model_checking(out: core.Outcome, rule: str):
 # ----------------------------------------------------------------------------- properties over Ref
 REF_PROPS = {
     # id: (alphabet for spec->code, trace profiles, clauses)
-    "C01": dict(alphabet=["bin", "scal", "sum", "matmul", "view", "square"], profiles=["c01"],
+    "C01": dict(alphabet=["bin", "scal", "sum", "matmul", "view", "square", "cum", "act", "ein"], profiles=["c01"],
                 clauses=["val", "sh", "const", "grad", "cr", "np_share"], depth=(2, 3), cases=[1, 2, 3, 4, 5, 6],
                 quick_n=700, thorough_n=20000),
     "C04": dict(alphabet=["scal", "view", "setitem", "aug"], profiles=["c04"],
